@@ -32,6 +32,15 @@ package wastepb
 //@   requires recv != nil && recv.model != nil && req != nil
 //@   ensures [negative] old(req.PageSize) < 0 ==> err != nil
 //@   ensures [page-size] err == nil ==> len(resp.WasteRecords) <= 1000 && (old(req.PageSize) > 0 ==> len(resp.WasteRecords) <= old(req.PageSize)) && (old(req.PageSize) == 0 ==> len(resp.WasteRecords) <= 50)
+//@   // "following next_page_token from the empty token ... returns every item exactly once": a page as long as what was asked
+//@   // of the model, with older records below it, is followed by a token that points just below the page; the cap applied
+//@   // to the page is the size the token arithmetic uses
+//@   track ListWasteRecords
+//@   track Itoa
+//@   ensures [full-page-continues] err == nil && len(resp.WasteRecords) == lastarg(ListWasteRecords, 2) && lastarg(ListWasteRecords, 1) - lastarg(ListWasteRecords, 2) > 0 ==>
+//@   |   calls(Itoa) == old(calls(Itoa)) + 1 && lastarg(Itoa, 0) == lastarg(ListWasteRecords, 1) - lastarg(ListWasteRecords, 2) && resp.NextPageToken == lastcall(Itoa)
+//@   ensures [asked-size] err == nil ==> calls(ListWasteRecords) == old(calls(ListWasteRecords)) + 1 && 1 <= lastarg(ListWasteRecords, 2) && lastarg(ListWasteRecords, 2) <= 1000 &&
+//@   |   (old(req.PageSize) == 0 ==> lastarg(ListWasteRecords, 2) == 50) && (0 < old(req.PageSize) && old(req.PageSize) <= 1000 ==> lastarg(ListWasteRecords, 2) == old(req.PageSize))
 //@   replay WasteListServer(req.PageSize)
 //@
 //@ property C11
